@@ -45,6 +45,8 @@ ASSUMPTIONS = ['upstream answers every GetMap with a cacheable image (no source 
 EXPLANATION = ('refusal-before-effects and effects-inside-grid proved for all requests over the model; real application compared on '
                'boundary addresses, limits, malformed values under a recording upstream and cache')
 
+GEN = []      # C16 depends on no translator-generated file (other properties' specs are not this check's obligations)
+
 FMT_ID = {'png': 1, 'jpeg': 2}
 DIM_ID = {'time': 1, 'elevation': 2}
 VAL_ID = {'default': 0}
